@@ -367,7 +367,7 @@ func nodeProp(rep *report.R) func(*rapid.T) {
 		steps := rapid.IntRange(5, 60).Draw(rt, "steps")
 		pick := func(label string) *nn { return c.nodes[rapid.IntRange(0, 3).Draw(rt, label)] }
 		for i := 0; i < steps; i++ {
-			op := rapid.IntRange(0, 25).Draw(rt, "op")
+			op := rapid.IntRange(0, 26).Draw(rt, "op")
 			x := pick("node")
 			switch {
 			case op <= 3:
@@ -465,9 +465,32 @@ func nodeProp(rep *report.R) func(*rapid.T) {
 					c.start(x)
 					c.logf("Restart(%d applied=%d)", x.id, x.applied)
 				}
-			case op >= 22:
+			case op == 22:
+				// the remaining local calls of the Node interface
+				if x.up {
+					ctx, cancel := ctxFor(300 * time.Millisecond)
+					switch rapid.IntRange(0, 2).Draw(rt, "misc") {
+					case 0:
+						_ = x.n.ForgetLeader(ctx)
+						c.logf("ForgetLeader(%d)", x.id)
+					case 1:
+						to := pick("peer")
+						c.call("ReportUnreachable", func() { x.n.ReportUnreachable(to.id) })
+						c.logf("ReportUnreachable(%d,%d)", x.id, to.id)
+					default:
+						to := pick("peer")
+						st := raft.SnapshotFinish
+						if rapid.Bool().Draw(rt, "fail") {
+							st = raft.SnapshotFailure
+						}
+						c.call("ReportSnapshot", func() { x.n.ReportSnapshot(to.id, st) })
+						c.logf("ReportSnapshot(%d,%d,%v)", x.id, to.id, st)
+					}
+					cancel()
+				}
+			case op >= 23:
 				c.drain(rapid.IntRange(1, 4).Draw(rt, "rounds"))
-				if x.up && op >= 24 {
+				if x.up && op >= 25 {
 					c.propose(x, rapid.SampledFrom([]int{0, 4, 40, 150}).Draw(rt, "size"))
 				}
 			default:
@@ -526,7 +549,7 @@ func nodeProp(rep *report.R) func(*rapid.T) {
 	}
 }
 
-const ruleNode = "raft.Node level: four real Nodes (goroutines; three voters and a spare that comes and goes as a learner) driven by one harness goroutine whose operations are rapid draws (Tick, Ready handled in the documented order + Advance, deliver/duplicate/drop of sent messages, Propose, ProposeConfChange V1/V2, Campaign, ReadIndex, TransferLeadership, Stop/RestartNode, compaction); oracles over the history: applied entries agree across nodes and incarnations and are gap-free, every applied payload was proposed, at most once, and never after ErrProposalDropped, exposed hard states are monotone, read states carry an issued context and an index not below the commit index exposed when issued, no logger panic inside node.run; non-trivial = at least two proposals applied and a restart, conf change, dropped proposal or snapshot install happened; distinct = digest of the operation history"
+const ruleNode = "raft.Node level: four real Nodes (goroutines; three voters and a spare that comes and goes as a learner) driven by one harness goroutine whose operations are rapid draws (Tick, Ready handled in the documented order + Advance, deliver/duplicate/drop of sent messages, Propose, ProposeConfChange V1/V2, Campaign, ReadIndex, TransferLeadership, ForgetLeader, ReportUnreachable, ReportSnapshot, Stop/RestartNode, compaction); oracles over the history: applied entries agree across nodes and incarnations and are gap-free, every applied payload was proposed, at most once, and never after ErrProposalDropped, exposed hard states are monotone, read states carry an issued context and an index not below the commit index exposed when issued, no logger panic inside node.run; non-trivial = at least two proposals applied and a restart, conf change, dropped proposal or snapshot install happened; distinct = digest of the operation history"
 
 func TestNodeAPI(t *testing.T) {
 	rep := report.New(reportAs(), ruleNode)
